@@ -377,6 +377,8 @@ def check_interior(ctx: Ctx):
     for k, s in enumerate(sites):
         at = gv.guard_atoms(s.node)
         sts = s.statuses
+        st_arg = s.arg("status")
+        ctx.ob("C03-O3", "R3 STATUS-USE", f, f"Result#{k} states its verdict as a literal of this routine (decided by the residual tests around it)", st_arg is None or is_status(st_arg) is not None, f"status `{ast.unparse(st_arg) if st_arg is not None else ''}` comes from elsewhere (a sub-problem, a helper): the convergence tests of this routine say nothing about the LP the caller posed", node=s.call)
         if "OPTIMAL" in sts:
             trivial = any(a.startswith("OR(") and "0 == m" in a and "0 == n" in a for a in at) or atom_of("m == 0") in at or atom_of("n == 0") in at
             if trivial:
@@ -724,7 +726,16 @@ def _v_ipm_no_variables_ignores_b(tree):
     M.replace_stmt(g, lambda s: isinstance(s, ast.If) and M.src_has(s.test, "bi < 0"), [])
 
 
+def _v_ipm_zero_columns_dropped(tree):
+    g = M.find_func(tree, "solve_lp_interior")
+    k = [i for i, st in enumerate(g.body) if isinstance(st, ast.Assign) and M.src_is(st.targets[0], "obj")]
+    if not k:
+        raise M.Skip("obj assignment not found")
+    g.body[k[0]:k[0]] = M.stmts("used = [j for j in range(n) if any(A[i][j] for i in range(m))]\nif 0 < len(used) < n:\n    sub = solve_lp_interior([c[j] for j in used], [[A[i][j] for j in used] for i in range(m)], b, minimize=minimize, eps=eps, max_iter=max_iter)\n    full = [0.0] * n\n    for j, xj in zip(used, sub.solution):\n        full[j] = xj\n    return Result(tuple(full), sub.objective, sub.iterations, sub.evaluations, sub.status)")
+
+
 VARIANTS = [
+    M.Variant("interior point solves without the all-zero columns and forwards the sub-problem's verdict (seed C03-N)", IP, _v_ipm_zero_columns_dropped, "C03-O3"),
     M.Variant("interior point calls a variable-free LP OPTIMAL without looking at b (original defect)", IP, _v_ipm_no_variables_ignores_b, "C03-O3"),
     M.Variant("twin: the OPTIMAL Result is built by a new helper that only packages its arguments", IP, _t_ipm_result_helper, None),
     M.Variant("Result construction moved into a helper that flips the sign itself; the OPTIMAL site hands it the unsigned cost (seed C03-J)", IP, _v_ipm_result_helper_unsigned_cost, "C03-O"),
